@@ -146,7 +146,7 @@ fn main() {
         return replay(p);
     }
     let mut r = Rng::new(a.seed);
-    let mut cs = Cases::new(&a.out, "Hashing Net_Model");
+    let mut cs = Cases::new(&a.out, "Hashing Net_Model Tok_Proofs");
     cs.shard = 60;
     let mut sm = Summary::default();
     sm.rule = "lists of 1-12 rules from the shared grammar (small vocabulary so tokens collide; all option kinds, tags, badfilter, duplicates) x requests built from the same vocabulary, half of them derived from a rule of the list; non-trivial = at least one rule of the list matches the request (by per-rule scan)".into();
@@ -204,6 +204,29 @@ fn main() {
                 got.len() > 1,
             );
         }
+    }
+
+    // ---- plain: the plain paths of check_pattern vs `plain_match` (Tok_Proofs.v), option-free rules
+    for _ in 0..(250 * a.scale) {
+        let body = gen::segs(&mut r, 1, 3).replace('^', "/").replace('*', "-");
+        let (l, rt) = (r.chance(1, 4), r.chance(1, 4));
+        let line = format!("{}{}{}", if l { "|" } else { "" }, if l { format!("https://{}/{}", r.pick(gen::HOSTS), body) } else { body.clone() }, if rt { "|" } else { "" });
+        let Some(f) = parse(&line) else { cs.stat("rule_parse_error"); continue };
+        let d = dump_filter(&f);
+        if d.hostname.is_some() || d.filter.len() != 1 || f.mask.contains(NetworkFilterMask::IS_REGEX) || f.mask.contains(NetworkFilterMask::IS_COMPLETE_REGEX) {
+            continue;
+        }
+        let url = if r.chance(2, 3) { gen::url_for(&mut r, &line) } else { gen::url(&mut r) };
+        let Ok(req) = Request::new(&url, "https://a.com/", "script") else { continue };
+        if !req.is_http && !req.is_https { continue }
+        let got = rule_matches(&f, &req);
+        let low = adblock::request::verif::url_lower_cased(&req).to_string();
+        cs.stat(if got { "plain_match" } else { "plain_nomatch" });
+        cs.case(
+            format!("Bool.eqb (plain_match (is_left_anchor {r}) (is_right_anchor {r}) {s} {u}) {g}", r = coq_rule(&d), s = hxs(&d.filter[0]), u = hxs(&low), g = cbool(got)),
+            json!({"fn": "plain_match", "rule": line, "url": url, "impl": got}),
+            got,
+        );
     }
 
     // ---- index / verd + oracle
